@@ -169,10 +169,16 @@ Section Decl.
     | _, _ => Ok (true, true, false, None)
     end.
 
-  Definition set_correlation_real_g (r : V) (o1 o2 : ureal) : M unit :=
+  (* set_correlation_real(x1,x2,r,assign=False): every check, nothing assigned *)
+  Definition check_correlation_real (r : V) (o1 o2 : ureal) : M (option (key * key)) :=
     s <~ mget ;;
     '(i1, i2, same, ks) <~ mlift (scr_flags s o1 o2) ;;
     _ <~ mlift (g_set_correlation_real N r (is_elem o1) (is_elem o2) i1 i2 same) ;;
+    mret ks.
+
+  (* set_correlation_real(x1,x2,r): the same checks, then both dictionary entries *)
+  Definition set_correlation_real_g (r : V) (o1 o2 : ureal) : M unit :=
+    ks <~ check_correlation_real r o1 o2 ;;
     match ks with
     | Some (k1, k2) => _ <~ assign_corr k1 k2 r ;; assign_corr k2 k1 r
     | None => mfail OtherExn
@@ -222,11 +228,15 @@ Section Decl.
   Definition in_ens (u : option key) (e : list key) : bool :=
     match u with Some k => kmem k e | None => false end.
 
+  Definition no_node (o : ureal) : bool := match unode o with NoNode => true | _ => false end.
+
   (* UncertainReal.set_correlation(self, r, x) *)
   Definition ureal_set_correlation (r : rarg V) (self : ureal) (x : option dslot) : M unit :=
     if r_is_zero r then mret tt
     else match x with
          | Some (DSReal o2) =>
+             (* if self._node is None or x._node is None: raise TypeError *)
+             if no_node self || no_node o2 then mfail TypeError else
              d1 <~ node_df_m self ;;
              both <~ (if df_is_inf N d1 then d2 <~ node_df_m o2 ;; mret (df_is_inf N d2) else mret false) ;;
              if both then scr_any r self o2
@@ -242,6 +252,17 @@ Section Decl.
 
   Definition all_zero (l : list V) : bool := forallb (fun v => eqb N v zero) l.
 
+  (* the four set_correlation_real(..., assign=False) that come first (generated shape check:
+     g_complex_checks_first) ... *)
+  Definition four_checks (r0 r1 r2 r3 : V) (re im re2 im2 : ureal) : M unit :=
+    let _ := g_complex_checks_first in
+    _ <~ check_correlation_real r0 re re2 ;;
+    _ <~ check_correlation_real r1 re im2 ;;
+    _ <~ check_correlation_real r2 im re2 ;;
+    _ <~ check_correlation_real r3 im im2 ;;
+    mret tt.
+
+  (* ... and the four assigning calls *)
   Definition four_calls (r0 r1 r2 r3 : V) (re im re2 im2 : ureal) : M unit :=
     _ <~ set_correlation_real_g r0 re re2 ;;
     _ <~ set_correlation_real_g r1 re im2 ;;
@@ -258,6 +279,7 @@ Section Decl.
         | RSeq [r0; r1; r2; r3] =>
             if all_zero [r0; r1; r2; r3] then mret tt
             else
+              _ <~ four_checks r0 r1 r2 r3 re im re2 im2 ;;
               d1 <~ node_df_m re ;;
               both <~ (if df_is_inf N d1 then d2 <~ node_df_m im2 ;; mret (df_is_inf N d2) else mret false) ;;
               if both then four_calls r0 r1 r2 r3 re im re2 im2
